@@ -259,7 +259,7 @@ def coq_crosscheck(samples, vectors):
             "(%d,%d,[%s])" % (fs, eof, ";".join("(%d,%d)" % x for x in l)) for fs, eof, l in part)))
         v.append("Definition r_%s := Eval vm_compute in map (fun c => match c with (fs, eof, l) => (if extents_ok fs eof l then 1 else 0) + (if extents_ok fs fs l then 2 else 0) end) %s.\nPrint r_%s.\n" % (name, name, name))
         labels.append(("r_" + name, part))
-    v.append("Definition cks : list (N * string) := [%s].\n" % ";".join('(%d,"%s")' % (0 if a == "crc32" else 1, bytes(b).hex()) for a, b, st in vectors))
+    v.append("Definition cks : list (N * string) := [%s].\n" % ";".join('(%d,"%s"%%string)' % (0 if a == "crc32" else 1, bytes(b).hex()) for a, b, st in vectors))
     v.append("Definition r_cks := Eval vm_compute in map (fun c => if fst c =? 0 then crc32 (unhex (snd c)) else hashlittle (unhex (snd c)) 0) cks.\nPrint r_cks.\n")
     out = vlib.coq_eval("".join(v), "c05cases")
     got = []
